@@ -1,5 +1,6 @@
 CONSTANTS
   MaxOps = 2
+  SmallAtoms = FALSE
 INIT Init
 NEXT Next
 INVARIANTS RoundTrip ReadmeExample PrintCase
